@@ -87,8 +87,15 @@ def simulate_witness(label, seed):
                     expected=want.tolist(), observed=np.asarray(got).tolist())
     # sensitivities in published (free) parameter order, also for a subset given out of order
     pn = m.parameters()
-    for subset in (None, [pn[-1], pn[0]] if len(pn) > 1 else None):
+    for subset in (None, [pn[-1], pn[0]] if len(pn) > 1 else None, 'after renaming'):
         try:
+            if subset == 'after renaming':
+                # renaming a non-prefix subset of the parameters must not change which parameter a published name selects
+                if len(pn) < 2:
+                    continue
+                m.set_parameter_names(dict([(pn[-1], 'Q_last')] + ([(pn[len(pn) // 2], 'Q_mid')] if len(pn) > 2 else [])))
+                pn = m.parameters()
+                subset = [pn[-1], pn[0]]
             if subset is None:
                 m.enable_sensitivities(True)
                 cols = list(range(len(pn)))
